@@ -547,6 +547,14 @@ impl Inner
         {
             "true" => 0,
             "false" => 1,
+            // test -f F && <line>
+            "test" if w.len() > 4 && w[1] == "-f" && w[3] == "&&" =>
+            {
+                self.touch(w[2], false);
+                if !self.fs.is_file(w[2]) { return 1; }
+                let rest = w[4..].join(" ");
+                self.run_line(&rest)
+            },
             // `kill -KILL $$`: the shell running the line is killed by a signal: no exit code at all
             "kill" => -9,
             "cat" =>
@@ -698,7 +706,8 @@ pub fn script_footprint(lines: &[String]) -> (Vec<String>, Vec<String>)
     let mut writes = vec![];
     for line in lines
     {
-        let w: Vec<&str> = line.split_whitespace().collect();
+        let mut w: Vec<&str> = line.split_whitespace().collect();
+        if w.len() > 4 && w[0] == "test" && w[3] == "&&" { reads.push(w[2].to_string()); w = w[4..].to_vec(); }
         if w.is_empty() { continue; }
         match w[0]
         {
